@@ -205,6 +205,72 @@ def run(chk, replay=None):
                     oracle.append(('the fault %s is reported, but under %s instead of one of %s' % (name, sorted({i[1] for i in errs}), want), faulty, name, want))
                 else:
                     stats['faults_rejected'] += 1
+            # a top-level component that repeats the name of a component encapsulated elsewhere (the second element of that
+            # name stays at the top level: the document format resolves component_ref to the first one)
+            if encaps and not replay:
+                xname = rng.choice(sorted(encaps))
+                def at2(pat):
+                    m2 = re.search(pat, text, re.M)
+                    return m2.start() if m2 else None
+                pos = at2(r'^  <connection ') or at2(r'^  <encapsulation') or text.index('</model>')
+                faulty = text[:pos] + '  <component name="%s"/>\n' % xname + text[pos:]
+                res = validate(faulty)
+                stats['faults_injected'] += 1
+                stats['by_fault']['component-name-repeats-encapsulated'] = stats['by_fault'].get('component-name-repeats-encapsulated', 0) + 1
+                if res is None:
+                    oracle.append(('the library crashed on the fault component-name-repeats-encapsulated', faulty, 'component-name-repeats-encapsulated'))
+                else:
+                    errs = [i for i in res[1] if i[0] == 0]
+                    if not (res[0].strip() and not errs):
+                        if not [i for i in errs if i[1] == 'COMPONENT_NAME_UNIQUE']:
+                            oracle.append(('a top-level component repeating the name %s of an encapsulated component is accepted (errors: %s)' % (xname, sorted({i[1] for i in errs})), faulty, 'component-name-repeats-encapsulated', ['COMPONENT_NAME_UNIQUE']))
+                        else:
+                            stats['faults_rejected'] += 1
+        # component names repeated at every relative position of a tree built through the API (a document can only repeat a
+        # name at the top level: component_ref resolves to the first component of that name)
+        if not replay:
+            import copy
+            from pygen import entities as E
+            hxe = build_hx('hx_equals', lib, extra_src=[os.path.join(ROOT, 'harness', 'hx_entity.h')])
+            tlines, tmeta = [], []
+            for k in range(40 if chk.tier == 'quick' else 400):
+                cnt = [0]
+                def tree(depth):
+                    cnt[0] += 1
+                    return {'id': '', 'name': 'n%d' % cnt[0], 'enc': '', 'math': '', 'imp': {'src': None, 'ref': ''}, 'vars': [], 'resets': [],
+                            'kids': [tree(depth + 1) for _ in range(rng.randint(0, 2 if depth < 3 else 0))]}
+                m = {'id': '', 'name': 'm', 'enc': '', 'units': [], 'comps': [tree(0) for _ in range(rng.randint(1, 3))]}
+                allc = []
+                def walk(c):
+                    allc.append(c)
+                    for kk in c['kids']:
+                        walk(kk)
+                for c in m['comps']:
+                    walk(c)
+                tlines.append('(validate %s)' % E.sexp_model(m)); tmeta.append(('valid', None))
+                if len(allc) >= 2:
+                    a, b = rng.sample(range(len(allc)), 2)
+                    m2 = copy.deepcopy(m)
+                    all2 = []
+                    def walk2(c):
+                        all2.append(c)
+                        for kk in c['kids']:
+                            walk2(kk)
+                    for c in m2['comps']:
+                        walk2(c)
+                    all2[b]['name'] = all2[a]['name']
+                    tlines.append('(validate %s)' % E.sexp_model(m2)); tmeta.append(('dup', '%s at positions %d and %d of the pre-order' % (all2[a]['name'], a, b)))
+            outs = run_lines(hxe, [], tlines)[1]
+            uniq = str(rules.index('COMPONENT_NAME_UNIQUE'))
+            for l, (kind, what), o in zip(tlines, tmeta, outs):
+                stats['api_trees'] = stats.get('api_trees', 0) + 1
+                t = o.split()
+                if not t or t[0] != 'rules':
+                    oracle.append(('the library crashed on a component tree built through the API', l, 'api-tree')); continue
+                if kind == 'valid' and t[1:]:
+                    oracle.append(('a tree of components with distinct names is rejected (rules %s)' % t[1:], l, 'api-tree'))
+                if kind == 'dup' and uniq not in t[1:]:
+                    oracle.append(('two components named %s are accepted' % what, l, 'component-name-repeated-anywhere', ['COMPONENT_NAME_UNIQUE']))
         # connected variables with compound units (repeated references, fractional exponents): compatible iff the same base units
         for k in range(60 if chk.tier == 'quick' else 600):
             if replay:
